@@ -1,12 +1,13 @@
 """
 C19 - dictionary findall returns complete, resolvable, history-independent results.
 
-Lean: Model/FindAll.lean, Proofs/FindAll.lean, Props/C19.lean
+Lean: Model/FindAll.lean, Proofs/FindAll.lean, Proofs/FindAllDesc.lean, Props/C19.lean
 B streams: fa.tok (normalisation), fa.find (findall end to end + state of the default objects after the call),
   fa.raw (_findall with raise_exception=False / explicit token lists), fa.first (findfirst), fa.hist (sequences of
   searches through the shared default objects)
-C evaluators (the statement on the real code): resolves (every key through item access, identity), exact (an exact
-  node path finds exactly its node), fanout (name on a list), descendant ('//*/name' vs an independent DFS), pure
+C evaluators (the statement on the real code): search (every key through item access and get, identity; every key
+  walked by plain Python indexing), exact (an exact node path finds exactly its node), fanout (name on a list),
+  descendant ('//*/name' vs an independent DFS, in the document order of the theorem, again after other searches), pure
   (tree unchanged), defaults (_findall.__defaults__ after every call), history (a search inside a sequence equals
   the same search on a freshly loaded module), findfirst.
 """
@@ -23,9 +24,9 @@ MANIFEST = dict(
               "arguments as explicit state + differential correspondence with the implementation (results in order, exception "
               "class, contents of _findall.__defaults__ after every call) + the statement executed on the implementation",
     text="Lean (Props/C19.lean), all unbounded in tree size, depth, expression and history length, for the code with "
-         "fixes C19-a/C19-b applied: C19_state_invariant - a search started from the fresh default objects ([], {}) leaves "
-         "them ([], {}), for every tree, expression and outcome (exceptions included); C19_objects_untouched - no call of "
-         "_findall modifies the stack dict it received and an empty path list stays empty; C19_list_changes_last_only - a "
+         "fixes C19-a/C19-b/C19-c applied: C19_state_invariant - a search started from the fresh default objects ([], {}) "
+         "leaves them ([], {}), for every tree, expression and outcome (exceptions included); C19_objects_untouched - no call "
+         "of _findall modifies the stack dict it received and an empty path list stays empty; C19_list_changes_last_only - a "
          "call changes at most the last element of the list it received; C19_history_independent - in every sequence of "
          "searches on the same or different trees each result equals the result of the same search run alone; "
          "C19_findfirst_state - the same for findfirst; C19_pure - every value returned occurs in the tree searched (the "
@@ -35,14 +36,27 @@ MANIFEST = dict(
          "through the item-access model (C01 engine) to the same node, tree unchanged; C19_findfirst - findfirst is the "
          "single pair / (None, None) / IndexError exactly as documented; C19_fanout, C19_fanout_all - a name applied to a "
          "list of containers is the [*] step followed by the name and returns the merged outcomes of all elements in "
-         "order under the paths ...[i]. Counter-example theorems: C19_text_key_cex (open finding C19-c), "
-         "C19_scalar_in_list_cex (outside the quantifier). Stated, differential only: C19_descendant_complete_stmt "
-         "('//*/name' = all nodes called name and nothing else; evaluator 'descendant' against an independent DFS), "
-         "C19_resolves_all_stmt (every key of every result without a text() step resolves; evaluator 'search'). The model "
-         "is compared with the real findall/_findall/findfirst on results in order, exception class and the contents of "
-         "_findall.__defaults__ after every call, single searches and sequences; the statement itself (identity `is`, "
-         "tree unchanged, defaults empty, in-sequence == freshly loaded module, fan-out, descendant, findfirst) is "
-         "executed on the implementation.",
+         "order under the paths ...[i]. Descendant wildcard, for dict-rooted trees whose keys are plain names, no "
+         "dictionary listing a key twice, every list containing only dicts/lists (KeysOkV, ContOkV): "
+         "C19_descendant_complete - '//*/name' returns exactly the pairs (canonical xpath of p, node at p) for the "
+         "positions p listed by descV, in document order (a node's own entry first, then below each child in key / element "
+         "order); C19_descendant_positions - descV lists (p, w) iff p ends with the key name and the node at p is w (both "
+         "inclusions, any depth, through dicts and lists); C19_descendant_distinct - no position twice, canonical xpaths "
+         "of distinct plain positions differ; C19_descendant_complete_iff - the same as a membership equivalence. Every "
+         "key resolves, for dict-rooted trees with plain keys and no key twice and EVERY expression (names, '*', indexes "
+         "incl. negative and last()+-k, [*], '..', text() conditions): C19_keys_spell - each key of each result is '//' + "
+         "steps (keys, attached integer indexes as written) along which plain Python indexing from the root reaches the "
+         "value, proved through the invariant 'the found-path list renders the position of the current node and every "
+         "proper prefix registered in the stack is registered with its node' over every branch of _findall with the state "
+         "threading of the model; C19_resolves_all - hence item access and get (C01 engine, C01_spellings_string) return "
+         "that value and leave the tree unchanged. C19_text_key_fixed (witness of the former finding C19-c), "
+         "C19_scalar_in_list_cex (outside the quantifier). NOT proved, differential only: the descendant and resolution "
+         "statements for list-rooted containers (n0list.findall), object identity, the real tree not being written. The "
+         "model is compared with the real findall/_findall/findfirst on results in order, exception class and the contents "
+         "of _findall.__defaults__ after every call, single searches and sequences; the statement itself (identity `is`, "
+         "item access and get per key, each key walked by plain indexing, tree unchanged, defaults empty, in-sequence == "
+         "freshly loaded module, fan-out, descendant in document order and again after other searches on the same object, "
+         "findfirst) is executed on the implementation.",
     note="keys are plain names (an n0dict resolves keys containing '/' or '[' as xpaths); lower()/isnumeric() beyond ASCII "
          "are outside the model (answered 'unsupported'); object identity is checked on the implementation only.",
     design_ref="5/C19",
@@ -593,13 +607,35 @@ def shrink_failure(evaluator, case):
     if "pos" in case:  # positions and expressions are tied to the tree: keep the case
         return case
 
+    first = f(case)
+    kind = failure_kind(first)
+
+    def texts(c):
+        # the searched name / expression(s) are part of the property's quantifier: only the trees may shrink
+        return (c.get("name"), c.get("expr"), c.get("mode"), sorted({e for _i, e in c.get("steps", [])}) if "steps" in c else None)
+
     def still(c):
         if not case_valid(ev, c):
             return False
+        if "steps" in c:
+            if not set(e for _i, e in c["steps"]) <= set(e for _i, e in case["steps"]):
+                return False
+        elif texts(c) != texts(case):
+            return False
         bad = f(c)
-        return bad is not None and not (kn and kn(c, bad))
+        return bad is not None and failure_kind(bad) == kind and not (kn and kn(c, bad))
 
     return core.shrink(case, still)
+
+
+def failure_kind(bad):
+    """what went wrong, without the data: a shrunk case must fail for the same reason"""
+    if not isinstance(bad, dict):
+        return None
+    if "what" in bad:
+        return ("what", bad["what"])
+    return tuple(sorted(k for k in bad if k in ("raised", "missing", "order", "after_related_calls", "defaults_after_call", "tree_changed",
+                                                  "in_sequence", "oracle_keys_collide", "raise_exception", "found", "got", "key")))
 
 
 def replay(rp):
